@@ -1080,37 +1080,61 @@ def mon_guard(t):
 
 
 def mon_window(t):
-    """For the directed schedules that stop a caller or the worker at a schedule point *inside* a call / command: a sweep must
-    not remove a key whose current expiry has not passed.  The cause is classified: the sweep fell into the window
-    between the two halves of a put_or_update, or it followed a stale duplicate index entry left by a put_or_update that
-    fell between the worker's store insert and its index registration."""
+    """For schedules with overtaking (a caller or the worker stopped at a schedule point *inside* a call / command while
+    other events run): a sweep must not remove a key whose current expiry has not passed.  The cause is classified by
+    what overtook what:
+      sweep-inside-upsert-window    put_or_update is not atomic with the expiry index: between its store update and its index
+                                    update a sweep ran, or another put_or_update on the same key, so the index holds an
+                                    entry that no longer matches the stored expiry
+      stale-duplicate-index-entry   the worker's put with time-to-live is not atomic with the expiry index: a put_or_update
+                                    fell between the store insert and the index registration, which then registers an
+                                    entry the store no longer agrees with"""
     out = []
-    at_point = {}       # tid -> (label, call)
+    at_point = {}            # tid -> (label, call)
+    worker_window = None     # (key, id) the worker has inserted and not yet registered
+    upsert_overtaken = set() # key ids whose put_or_update window was overtaken by a sweep or another put_or_update
+    worker_overtaken = set() # key ids whose worker window was overtaken by a put_or_update
     for i, r in enumerate(t.recs):
         if r["skipped"]:
             continue
         p = r["ev"].split()
+        sb, sa = t.store_before(i), t.store_after(i)
+        if p[0] == "workerp" and r["ret"] and r["ret"][0] == 7:
+            new = [k for k in sa if k not in sb or sa[k][2] != sb[k][2]]
+            worker_window = (new[0], sa[new[0]][2]) if new else None
+        elif p[0] in ("runw", "workerp"):
+            worker_window = None
+        is_upsert = p[0] in ("call", "callp") and len(p) > 3 and p[2] == "upsert"
+        resumed = p[0] == "run" and p[1] in at_point
+        if is_upsert or resumed:
+            k = int(p[3]) if is_upsert else int(at_point[p[1]][1][1])
+            if worker_window and worker_window[0] == k:
+                worker_overtaken.add(worker_window[1])
+            for tid, (label, call) in at_point.items():
+                if tid != p[1] and int(call[1]) == k and k in sb:
+                    upsert_overtaken.add(sb[k][2])
         if p[0] == "callp" and r["ret"] and r["ret"][0] == 7:
             at_point[p[1]] = (r["ret"][1], p[2:])
-        if p[0] == "run" and p[1] in at_point and (not r["ret"] or r["ret"][0] != 7):
+        if resumed and (not r["ret"] or r["ret"][0] != 7):
             del at_point[p[1]]
         if p[0] != "sweep":
             continue
+        for tid, (label, call) in at_point.items():
+            if int(call[1]) in sb:
+                upsert_overtaken.add(sb[int(call[1])][2])
         now = t.now_before[i]
-        sb, sa = t.store_before(i), t.store_after(i)
         for k, ent in sb.items():
             if k in sa:
                 continue
             if ent[3] != -1 and ent[3] < now:
                 continue          # due: fine
-            in_upsert = [tid for tid, (label, call) in at_point.items() if label == "upsert.after_store_update" and call[0] == "upsert" and int(call[1]) == k]
-            dup = [e for e in t.before[i]["ticker"] if e[1] == ent[2]]
-            if in_upsert:
-                sig = "sweep-inside-upsert-window"
-                why = "the sweep fell between store.update and the index update of a put_or_update that extends the time-to-live"
-            elif len(dup) > 1:
+            entries = [e for e in t.before[i]["ticker"] if e[1] == ent[2]]
+            if ent[2] in worker_overtaken:
                 sig = "stale-duplicate-index-entry"
-                why = "the key id had two index entries (%s): a put_or_update fell between the worker's store insert and its index registration" % dup
+                why = "a put_or_update fell between the worker's store insert and its index registration; the index then held %s for this key id" % entries
+            elif ent[2] in upsert_overtaken:
+                sig = "sweep-inside-upsert-window"
+                why = "a sweep or another put_or_update fell between store.update and the index update of a put_or_update on this key; the index then held %s for this key id" % entries
             else:
                 sig = "sweep-removed-live-key"
                 why = "no cause identified"
